@@ -16,6 +16,7 @@ structure BindScene (t : State) (ns name : String) (pod : Pod) (uid : Nat) : Pro
   truth : Tbl.get t.pods (ns, name) = some pod
   uid : uid = 0 ∨ pod.uid = uid
   wants : pod.wants = true
+  pending : pod.node = ""
 
 /-- what Filter established for an approved node: its subnet is cached, and if Bind has to allocate, every range list
     it will allocate from still has a free address in a pool listing that subnet -/
@@ -38,7 +39,7 @@ def BindGood (t : State) (pod : Pod) (sn : Subnet) (ch : Choice) (o : Out) : Pro
       ∀ ip, ip ∈ ips → ip ∈ held t pod ∨ (ip ∈ t.free ∧ hasSubnet t ip sn = true))
 
 theorem bind_finish (F : Facts) {t : State} {ns name : String} {pod : Pod} {uid : Nat} (node : String)
-    (hs : BindScene t ns name pod uid) (ch : Choice) (infos : List (Option IP))
+    (hs : BindScene t ns name pod uid) (ch : Choice) (hans : ch.answer = .truthful) (infos : List (Option IP))
     (hi : bindInfos t pod ch = some infos) (hu : (F.bindChecksUID && uidConflict F t pod infos) = false)
     (t2 : State) (infos2 : List (Option IP))
     (hA : bindAlloc t pod node { policy := policyOf pod, node := node, uid := pod.uid } infos ch.pick = (t2, .ok, infos2))
@@ -54,8 +55,8 @@ theorem bind_finish (F : Facts) {t : State} {ns name : String} {pod : Pod} {uid 
   have fr3 := fr.trans hl.2
   have hp : Tbl.get (bindLoop t2 (keyOf pod) node { policy := policyOf pod, node := node, uid := pod.uid }
       (infos.filterMap id) (infos2.filterMap id)).1.pods (ns, name) = some pod := by rw [fr3.pods]; exact hs.truth
-  rw [bindCommitX_nofault (hs.nf.of_frame fr3)]
-  have := bindCommit_ok (hs.nf.of_frame fr3) pod ns name uid node (infos2.filterMap id) pod hp hs.uid
+  rw [hans, bindFinish_plain F (hs.nf.of_frame fr3) pod ns name uid node _ pod hp hs.uid hs.pending]
+  have := bindCommit_ok (hs.nf.of_frame fr3) pod ns name uid node (infos2.filterMap id) pod hp hs.uid hs.pending
   refine ⟨this.1, ?_⟩
   rw [this.2]
   apply List.map_congr_left
@@ -86,7 +87,8 @@ theorem list_isEmpty_false {α : Type} {l : List α} (hne : l ≠ []) : l.isEmpt
 
 /-- every answer of a Bind on an approved node is ok / waiting / an inadmissible choice -/
 theorem bind_good (F : Facts) {t : State} {ns name : String} {pod : Pod} {uid : Nat} {node : String} {sn : Subnet}
-    (hs : BindScene t ns name pod uid) (hr : Ready t pod node sn) (hwf : wfRequest pod.ranges = true) (ch : Choice) :
+    (hs : BindScene t ns name pod uid) (hr : Ready t pod node sn) (hwf : wfRequest pod.ranges = true) (ch : Choice)
+    (hans : ch.answer = .truthful) :
     BindGood t pod sn ch (bind F t ns name uid node ch).2 := by
   unfold BindGood
   have hn := hs.coh.allocNodup
@@ -146,7 +148,7 @@ theorem bind_good (F : Facts) {t : State} {ns name : String} {pod : Pod} {uid : 
             have fr := (allocateInSubnet_chg t (keyOf pod) sn
               { policy := policyOf pod, node := node, uid := pod.uid } ch.pick hs.coh).frame
             rw [hok] at hAeq
-            have fin := bind_finish F node hs ch [] hi hu _ _ hAeq hc2 fr (fun _ _ h => by cases h)
+            have fin := bind_finish F node hs ch hans [] hi hu _ _ hAeq hc2 fr (fun _ _ h => by cases h)
             refine ⟨fin.1, _, fin.2, fun j hj => ?_⟩
             right
             have hj' := byKeyAndRanges_owns hc2.allocNodup _ _ j hj
@@ -181,7 +183,7 @@ theorem bind_good (F : Facts) {t : State} {ns name : String} {pod : Pod} {uid : 
             unfold bindAlloc
             simp [hre, unfoundRanges]
           right; right
-          have fin := bind_finish F node hs ch [some ip0] hi' hu _ _ hAeq hs.coh (Frame.refl t)
+          have fin := bind_finish F node hs ch hans [some ip0] hi' hu _ _ hAeq hs.coh (Frame.refl t)
             (fun j hj _ => by
               simp at hj; subst hj
               exact owns_of_mem_ipsOfKey hn hmem)
@@ -214,7 +216,7 @@ theorem bind_good (F : Facts) {t : State} {ns name : String} {pod : Pod} {uid : 
             unfold unfound at hun
             simp [hun, hinfne]
           right; right
-          have fin := bind_finish F node hs ch _ hi hu _ _ hAeq hs.coh (Frame.refl t)
+          have fin := bind_finish F node hs ch hans _ hi hu _ _ hAeq hs.coh (Frame.refl t)
             (fun j hj _ => byKeyAndRanges_owns hn _ _ j hj)
           exact ⟨fin.1, _, fin.2, fun j hj => Or.inl hj⟩
         · -- AllocateInSubnetsAndIPRange for the range lists without an owned address
@@ -259,7 +261,7 @@ theorem bind_good (F : Facts) {t : State} {ns name : String} {pod : Pod} {uid : 
               rw [hr1] at this; cases this
             simp [this, hr1]
           right; right
-          have fin := bind_finish F node hs ch _ hi hu _ _ hAeq hc2 fr
+          have fin := bind_finish F node hs ch hans _ hi hu _ _ hAeq hc2 fr
             (fun j _ hj => hmono j (byKeyAndRanges_owns hn _ _ j hj))
           refine ⟨fin.1, _, fin.2, fun j hj => ?_⟩
           obtain ⟨r, hr1, hr2⟩ := byKeyAndRanges_owns hc2.allocNodup _ _ j hj
@@ -276,7 +278,7 @@ theorem bind_good_exists (F : Facts) {t : State} {ns name : String} {pod : Pod} 
     ∃ ch, okOrWaiting (bind F t ns name uid node ch).2.res := by
   -- first = some owned address, pick = some candidate
   refine ⟨{ first := (ipsOfKey t (keyOf pod)).head?, pick := (cands t sn).head? }, ?_⟩
-  have hg := bind_good F hs hr hwf { first := (ipsOfKey t (keyOf pod)).head?, pick := (cands t sn).head? }
+  have hg := bind_good F hs hr hwf { first := (ipsOfKey t (keyOf pod)).head?, pick := (cands t sn).head? } rfl
   unfold BindGood at hg
   rcases hg with ⟨_, hre, hbad⟩ | hw | ⟨hok, _⟩
   · exfalso
